@@ -35,6 +35,8 @@ type sweepScenario struct {
 	// MineDuringPay: blocks that arrive while the taker's claim-payment loop runs (at its second and third
 	// height query), so that an attempt can fail and the window can close inside the loop
 	MineDuringPay uint32
+	// Eager: see HistCfg.Eager (decided per case by the history)
+	Eager bool
 	// RecoverFault: a boundary call that fails once while the crashed node recovers ("" none)
 	RecoverFault string
 	// ThroughCsv: once the peers are silent the chain advances past the csv and the watchers report it,
@@ -50,6 +52,7 @@ type sweepSpec struct {
 	csv     bool                          // after the peer went silent the csv matures inside the swept run
 	chains  []string                      // restrict the scenario's chain
 	payMine bool                          // blocks arrive during the claim-payment loop and payments fail first
+	eager   bool                          // back-ends call back at once for past events; long downtimes at the reboot
 	lags    bool                          // a height query may answer a tip below the true one (also while recovering)
 }
 
@@ -83,6 +86,7 @@ func genSweepScenario(t *rapid.T, spec sweepSpec) sweepScenario {
 	if len(spec.chains) > 0 {
 		s.Chain = rapid.SampledFrom(spec.chains).Draw(t, "swChainRestricted")
 	}
+	s.Eager = spec.eager
 	if rapid.IntRange(0, 2).Draw(t, "swRecoverFaultWanted") == 0 {
 		s.RecoverFault = rapid.SampledFrom(rfaults).Draw(t, "swRecoverFault")
 	}
@@ -109,7 +113,7 @@ var (
 
 // runSweepScenario plays the scenario; crashAt < 0 means no crash.
 func runSweepScenario(t *rapid.T, s sweepScenario, crashAt int, monitor func(*Hist)) *Hist {
-	h := newHist(t, HistCfg{Chains: []string{s.Chain}, NoInitialSwap: true, LNDStyle: s.LND})
+	h := newHist(t, HistCfg{Chains: []string{s.Chain}, NoInitialSwap: true, LNDStyle: s.LND, Eager: s.Eager})
 	h.B.LNDStyle = s.LND
 	h.monitors = []func(*Hist){monitor}
 	if s.FaultCall != "" {
@@ -297,7 +301,7 @@ func TestC06CrashSweep(t *testing.T) {
 
 func TestC07CrashSweep(t *testing.T) {
 	col := stats.Get("C07.sweep")
-	rapid.Check(t, func(t *rapid.T) { crashSweep(t, col, sweepSpec{monitor: monitorC07, final: finalC07, silence: true}) })
+	rapid.Check(t, func(t *rapid.T) { crashSweep(t, col, sweepSpec{monitor: monitorC07, final: finalC07, silence: true, eager: true}) })
 }
 
 func TestC13CrashSweep(t *testing.T) {
@@ -312,7 +316,7 @@ func TestC13CrashSweep(t *testing.T) {
 func TestC16CrashSweep(t *testing.T) {
 	col := stats.Get("C16.sweep")
 	rapid.Check(t, func(t *rapid.T) {
-		crashSweep(t, col, sweepSpec{silence: true, final: func(h *Hist, c *stats.Collector) {
+		crashSweep(t, col, sweepSpec{silence: true, eager: true, final: func(h *Hist, c *stats.Collector) {
 			closureSilentPeer(h, 4)
 			checkC16(h, c)
 		}})
